@@ -183,7 +183,7 @@ func (x *wl) runWorkload(steps int, faults bool) {
 	var rel *asm.Task
 	finishRel := func() {
 		if rel != nil {
-			rel.Wait()
+			rel.WaitRelease()
 			rel = nil
 		}
 	}
@@ -226,7 +226,7 @@ func (x *wl) runWorkload(steps int, faults bool) {
 				if s.ReleasePending() && r.Chance(2, 3) {
 					rel = s.StartReleaseRound()
 					if !strings.HasPrefix(reached, "state.write") {
-						rel.Wait() // it can complete: the store lock of the state writer is free
+						rel.WaitRelease() // it can complete: the store lock of the state writer is free
 						rel = nil
 						x.w.Count("release_statewrites_during_sync", 1)
 					}
